@@ -90,10 +90,10 @@ def run(chk):
     for e in [e for e in events if e["ev"] == "incoh"][:2] + [e for e in events if e["ev"] in ("sdelay", "chain")][:2]:
         chk.sample(e["_desc"])
     inc = [e for e in events if e["ev"] == "incoh"]
-    chk.notes["sessions"] = {"law_one_dm_object": n_lseq, "incoh_one_signal_object": n_iseq,
+    chk.notes["sessions"] = {"law_one_dm_object": n_lseq, "law_same_frequency_arrays": n_lseq, "incoh_one_signal_object": n_iseq,
                              "dm_ops": {}}
     for c in cases:
-        for op, _ in c.get("steps", []):
+        for op, _ in (c.get("steps", []) if c["kind"] != "lawarr" else []):
             chk.notes["sessions"]["dm_ops"][op] = chk.notes["sessions"]["dm_ops"].get(op, 0) + 1
     dk = [cases[e["_case"]].get("base", cases[e["_case"]]) for e in inc]
     chk.notes["incoh_dask_freq_chunks"] = {
